@@ -1,5 +1,6 @@
 SPECIFICATION GSpec
 CONSTANTS DictCap = 4096
           Depth = 40
+          ChunkEvents = TRUE
 INVARIANTS Emit TypeOK FrontInWindow
 CHECK_DEADLOCK FALSE
